@@ -1149,6 +1149,26 @@ WMLOAD_CALLS = dict(LOADS, **{
 GROUPS.append(("FnsLoad3.lean", ["Sds.Model.WM", "Sds.Generated.FnsLoad", "Sds.Generated.FnsConstr5"], [
     dict(file="wavelet_matrix/wm_core.rs", impl=r"impl Serialize for WMCore\b", fn="load", name="gen_WMCore_load", reader="reader", ret=("N", "WMCore"),
          calls=WMLOAD_CALLS, structs_over={"WMCore": WMCORE_STRUCT}),
+    # `WaveletMatrix::load` once more, this time over the TRANSLATED core loader (FnsLoad.lean has it over the model's codec)
+    dict(file="wavelet_matrix.rs", impl=r"impl Serialize for WaveletMatrix\b", fn="load", name="gen_WaveletMatrix_load_full", reader="reader",
+         ret=("N", "WaveletMatrix"), calls=dict(LOADS, **{"WMCore::load": dict(lean="gen_WMCore_load m {0}", ret=("N", "WMCore"), load=True)})),
+]))
+# ---- the generic `impl<V: Serialize> Serialize for Option<V> { fn load }` at the three instances `BitVector::load` uses, and
+# `BitVector::load` once more over them (FnsLoad.lean has it over the model's option codecs)
+def optload(v, name, lean):
+    return dict(file="serialize.rs", impl=r"impl<V: Serialize> Serialize for Option<V>", fn="load", name=name, reader="reader",
+                macro_subst={"V::load": "%s::load" % v}, ret=("O", ("N", v)),
+                calls=dict(LOADS, **{"%s::load" % v: dict(lean=lean, ret=("N", v), load=True)}), tyalias={"Self": ("O", ("N", v))})
+
+
+GROUPS.append(("FnsLoad4.lean", ["Sds.Model.WM", "Sds.Generated.FnsLoad"], [
+    optload("RankSupport", "gen_Option_RankSupport_load", "gen_RankSupport_load m {0}"),
+    optload("SelectSupport", "gen_Option_SelectSupport_load", "gen_SelectSupport_load m {0}"),
+    dict(file="bit_vector.rs", impl=r"impl Serialize for BitVector\b", fn="load", name="gen_BitVector_load_full", reader="reader", ret=BV,
+         calls=dict(LOADS, **{
+             "Option::<RankSupport>::load": dict(lean="gen_Option_RankSupport_load m {0}", ret=("O", ("N", "RankSupport")), load=True),
+             "Option::<SelectSupport<Identity>>::load": dict(lean="gen_Option_SelectSupport_load m {0}", ret=("O", ("N", "SelectI")), load=True),
+             "Option::<SelectSupport<Complement>>::load": dict(lean="gen_Option_SelectSupport_load m {0}", ret=("O", ("N", "SelectC")), load=True)})),
 ]))
 GROUPS.append(("FnsLoad2.lean", ["Sds.Model.RL", "Sds.Generated.FnsLoad", "Sds.Generated.FnsConstr"], [
     dict(file="rl_vector.rs", impl=r"impl Serialize for RLVector\b", fn="load", name="gen_RLVector_load", reader="reader", ret=RLV_T, calls=RLLOAD_CALLS,
@@ -1257,6 +1277,27 @@ GROUPS.append(("FnsFromExt.lean", ["Sds.Model.BitVector", "Sds.Generated.FnsVec"
     dict(file="bit_vector.rs", impl=r"impl FromIterator<bool> for BitVector\b", fn="from_iter", name="gen_BitVector_from_iter",
          calls=dict(FROMEXT_CALLS, **{"iter.into_iter": dict(lean="iter", ret=BLIST, monadic=False)}),
          params={"iter": ("(iter : List Bool)", BLIST, "iter")}, tyalias={"Self": BV}, ret=BV),
+]))
+
+
+# ---- the wavelet matrix from a vector: `WaveletMatrix::start_offsets` (counting, two `sort_unstable_by_key`, the prefix sums
+# through `iter_mut()`, `collect()` into an IntVector, `pack`) and the `macro_rules! wavelet_matrix_from` body at `u64`
+WUP = ("N", "WUPairs")
+STRUCTS["WUPairs"] = dict(lean="(Array (Word × Nat))", ctor=None, fields={}, fieldmap={})
+WMNEW_CALLS = {
+    "Vec::with_capacity": dict(lean="(#[] : {{ty}})", ret="HINT", monadic=False, args=[U]),
+    "<WUPairs>.push": dict(lean="{0}.push {1}", ret=UNIT, mutrecv=True, args=[("T", [W, U])]),
+    "<IntVector>.pack": dict(lean="gen_IntVector_pack m {0}", ret=UNIT, mutrecv=True, monadic=True),
+    "source.iter.cloned.max": dict(lean="arrMaxW source", ret=("O", W), monadic=False),
+    "source.len": dict(lean="source.size", ret=U, monadic=False),
+    "Self::start_offsets": dict(lean="gen_WaveletMatrix_start_offsets m cap {0} {1} {2}", ret=IV, args=[WLIST, U, W]),
+    "WMCore::from": dict(lean="gen_WMCore_from_u64 m {0}", ret=("N", "WMCore"), args=[A]),
+}
+GROUPS.append(("FnsWMNew.lean", ["Sds.Model.WM", "Sds.Generated.FnsFromExt", "Sds.Generated.FnsConstr2", "Sds.Generated.FnsConstr5"], [
+    dict(file="wavelet_matrix.rs", impl=r"impl WaveletMatrix\b", fn="start_offsets", name="gen_WaveletMatrix_start_offsets", calls=WMNEW_CALLS,
+         binders=["(cap : Nat)"], params={"iter": ("(iter : List Word)", WLIST, "iter")}, ret=IV),
+    dict(file="wavelet_matrix.rs", impl=r"impl From<Vec<u64>> for WaveletMatrix\b", fn="from", name="gen_WaveletMatrix_from_u64", calls=WMNEW_CALLS,
+         macro_subst={"$t": "u64"}, binders=["(cap : Nat)"], tyalias={"Self": ("N", "WaveletMatrix")}, ret=("N", "WaveletMatrix")),
 ]))
 
 
